@@ -402,8 +402,13 @@ fn c08_manual_run(case: &mut Case, rng: &mut Rng) {
     let ps = perms(chosen.len());
     let order = &ps[(sel / (1 << k)) % ps.len()];
     // indexes shift as messages leave the queue only after the next step, so raw indexes are stable here
-    for &oi in order {
-        case.ctl(&format!("deliver h0 h1 {}", chosen[oi]));
+    if chosen.len() == k && case.idx % 2 == 0 {
+        // the whole queue at once
+        case.ctl("deliverall h0 h1");
+    } else {
+        for &oi in order {
+            case.ctl(&format!("deliver h0 h1 {}", chosen[oi]));
+        }
     }
     case.ctl("links");
     // every third case: the release follows the manual deliveries at once, before any step or send has
